@@ -222,7 +222,8 @@ def run_case(case):
             return jax.vmap(tf.flatten_tree)(smp)
 
     f = jax.jit(jax.vmap(sample_with))
-    zs = [np.zeros((D,))] + [np.asarray(z, dtype=np.float64) for z in case.get("zr", [])]
+    # prescribed draw vectors are only usable if their length fits the draws actually requested
+    zs = [np.zeros((D,))] + [np.asarray(z, dtype=np.float64) for z in case.get("zr", []) if len(z) == D]
     probes = np.concatenate([np.stack(zs), np.eye(D)], axis=0)
     res = np.asarray(f(jnp.asarray(probes)), dtype=np.float64)
     out["s0"] = res[0].tolist()
